@@ -142,5 +142,35 @@ func init() {
 			Infra("selftest failed")
 		}
 		fmt.Println("SELFTEST OK: recorded run accepted by ProtoTrace; missing invocation, failed command with a report, wrong exit status, missing --no-replace-objects and an unknown git command rejected")
+
+		// Gated replay: a schedule of the model is followed step by step by the real processes; a sequence of steps
+		// that is no behaviour of Pipeline1 (cat-file answers before rev-list's listing has ended: the copy stage
+		// is buffered) cannot be followed; a schedule with a death makes the run fail
+		gsc := pipelineRepo("selfgate", 1, 1, 0)
+		gdir, _ := os.MkdirTemp(c.Scratch, "selfgate-")
+		grepo := filepath.Join(gdir, "r")
+		if _, err := materialiseCase(grepo, &gsc); err != nil {
+			Infra("selftest repository: %v", err)
+		}
+		e.home = gdir
+		classOf := func(ev string) string {
+			if len(ev) >= 3 && ev[:3] == "Rev" {
+				return "revlist"
+			}
+			return "check"
+		}
+		gargs := []string{"--json", "--no-progress"}
+		okTrail := schedule{Trail: []string{"RevRead", "RevStartWriting", "RevWrite", "RevWrite", "RevWrite", "RevExit", "CatStep", "CatStep", "CatStep", "CatExit"}}
+		badTrail := schedule{Trail: []string{"RevRead", "RevStartWriting", "RevWrite", "CatStep", "RevWrite", "RevWrite", "RevExit", "CatStep", "CatStep", "CatExit"}}
+		dieTrail := schedule{Trail: []string{"RevRead", "RevStartWriting", "RevWrite", "RevWrite", "RevWrite", "RevExit", "CatStep", "CatDie"}}
+		g1 := e.runGated("self-ok", grepo, gargs, "revlist,check", okTrail, classOf, "kill")
+		g2 := e.runGated("self-bad", grepo, gargs, "revlist,check", badTrail, classOf, "kill")
+		g3 := e.runGated("self-die", grepo, gargs, "revlist,check", dieTrail, classOf, "kill")
+		c.Note("gated replay: model schedule infeasible=%q exit=%d; non-behaviour infeasible=%q; death inflicted=%v exit=%d", g1.Infeasible, g1.Exit, g2.Infeasible, g3.Inflicted, g3.Exit)
+		if g1.Infeasible != "" || g1.Exit != 0 || g2.Infeasible == "" || !g3.Inflicted || g3.Exit == 0 || g3.Stdout != "" {
+			fmt.Println("SELFTEST FAILED: the gated replay does not discriminate")
+			Infra("selftest failed")
+		}
+		fmt.Println("SELFTEST OK: a schedule of Pipeline1 is followed step by step by the real processes; cat-file answering before the listing has ended cannot be followed; a scheduled death makes the run fail")
 	}
 }
